@@ -50,6 +50,15 @@ def sum_is_exact(terms):
     return sum(abs(t.numerator) * ((1 << k) // t.denominator) for t in terms) < (1 << 53)
 
 
+def act_close(got, want, terms, exact):
+    """exact when every partial sum is a double; otherwise numpy's rounding error is bounded by the magnitude of
+    the TERMS (a few huge weights that nearly cancel), not of the result: 2^-30 * max(1, sum |terms|)"""
+    if exact:
+        return got == want
+    from common import TOL
+    return abs(got - want) <= TOL * max(1, sum(abs(t) for t in terms))
+
+
 def parse_lines(lines):
     """the documented text format: header, then cues TAB outcomes, tokens joined by '_'"""
     evs = []
@@ -194,7 +203,7 @@ def writer_problem(c, res, mr, ml):
         for o_i, o in enumerate(outs):
             terms = [w.get((o, cu), Fraction(0)) for cu in set(cs)]
             want = sum(terms, Fraction(0))
-            if not close(Fraction(frac(res['activations'][e_i][o_i])), want, exact and sum_is_exact(terms)):
+            if not act_close(Fraction(frac(res['activations'][e_i][o_i])), want, terms, exact and sum_is_exact(terms)):
                 return 'stage activation: event %d outcome %r: %s, sum of the returned weights %s' % (
                     e_i, o, float(frac(res['activations'][e_i][o_i])), float(want))
     if set(outs) != set(res['weights']['outcomes']):
@@ -470,7 +479,7 @@ def run(rep, pool, driver, tier):
                     want = sum(terms, Fraction(0))
                     # the float sum is exact only if every partial sum (in any order) is a double: all
                     # terms on one dyadic grid 2^-k and sum |terms| < 2^(53-k); otherwise tolerance
-                    if not close(Fraction(frac(res['activations'][e_i][o_i])), want, exact and sum_is_exact(terms)):
+                    if not act_close(Fraction(frac(res['activations'][e_i][o_i])), want, terms, exact and sum_is_exact(terms)):
                         prob = 'stage activation: event %d outcome %r: %s, sum of the returned weights %s' % (
                             e_i, o, float(frac(res['activations'][e_i][o_i])), float(want))
                         break
